@@ -17,6 +17,7 @@ R4 reach:   every non-final, non-available status an operation can leave behind 
 from __future__ import annotations
 
 import ast
+import os
 
 from ..flow import call_name, calls_in
 from ..loader import AnalysisError, FuncInfo, walk_no_nested
@@ -89,6 +90,7 @@ def analyse_entry(ctx: Context, eng: Engine, label: str, f: FuncInfo, pre: str, 
     final, avail = frozenset(sm.final), frozenset(sm.available)
     windows: dict[str, tuple[str, str, list[str]]] = {}
     exits: dict[str, tuple[str, str, list[str]]] = {}
+    early: dict[str, tuple[str, str, list[str]]] = {}
     left: set[str] = set()
     try:
         results = eng.run(f, env, st)
@@ -104,6 +106,11 @@ def analyse_entry(ctx: Context, eng: Engine, label: str, f: FuncInfo, pre: str, 
             for e, snap in s.trace:
                 if e.tok != tok or snap.get(tok) is None:
                     continue
+                if e.kind == "Q+" and cur_state is not None and cur_state.status and not (cur_state.status & avail):
+                    # the message becomes visible while the invocation cannot be taken: a concurrent poller pops it,
+                    # sees a status that is not available for run, and discards it
+                    key = f"push-before-available::{_fn(e)}::{','.join(sorted(cur_state.status))[:40]}"
+                    early.setdefault(key, (e.loc(), f"[{label}] the invocation's message is queued ({e.loc()}) while its status is {describe(cur_state)}: another runner polling at that moment pops the message, finds the invocation not available for run and drops it; when this actor then writes the available status nothing is queued any more", _path(s)))
                 if e.kind in EFFECTS:
                     # the crash point just before this effect
                     if last_eff is not None and cur_state is not None and resp and not safe(IState(cur_state.status, cur_state.own, cur_state.queued, True, cur_state.accepted), final, avail):
@@ -120,11 +127,22 @@ def analyse_entry(ctx: Context, eng: Engine, label: str, f: FuncInfo, pre: str, 
             fin = s.istates.get(tok)
             if last_eff is not None and fin is not None and resp and fin.accepted and not safe(IState(fin.status, fin.own, fin.queued, True, True), final, avail):
                 how = o.kind + (f":{o.exc.cls}" if o.exc else "")
+                # why a NORMAL end leaves it behind: the producer was abandoned by its consumer, or an error was swallowed
+                idx = max(i_ for i_, (e_, _) in enumerate(s.trace) if e_ is last_eff)
+                later = [e_ for e_, _ in s.trace[idx + 1:]]
+                if not o.exc:
+                    if any(e_.kind == "GEN-ABANDONED" for e_ in later):
+                        how += ":generator-abandoned"
+                    else:
+                        caught = [e_ for e_ in later if e_.kind == "CAUGHT"]
+                        if caught:
+                            how += ":after-caught:" + caught[0].detail.split(" ")[0]
                 key = f"exit::{_fn(last_eff)}::{_sig(last_eff)}::{how}"
                 exits.setdefault(key, (last_eff.loc(), f"[{label}] the operation ends ({how}) after {_sig(last_eff)} ({last_eff.loc()}) with the invocation in {describe(fin)}: nothing will queue or recover it", _path(s)))
         for e, _ in s.trace:
             if e.kind == "S" and e.detail not in final and e.detail not in avail and e.detail not in HELD:
                 left.add(e.detail)
+    windows.update({k: v for k, v in early.items()})  # reported under R2 (state between two effects)
     return windows, exits, len(results), left
 
 
@@ -159,11 +177,12 @@ def run(ctx: Context) -> None:
     nwin = nexit = 0
     for label, f, pre in ents:
         # recovery loops need two iterations to show 'the 2nd fails after the 1st succeeded'
-        eng.loop_k = 2 if label.startswith(("core-task", "stop", "submit", "loop")) else k
-        if label.startswith("worker"):
-            # the worker's outer loop repeats one poll-and-run cycle: a second unrolling multiplies the
-            # paths without adding effect pairs (stated bound; the poll itself is unrolled in loop:*)
-            eng.loop_k = 1
+        # two unrollings everywhere: "the 2nd element fails / is yielded after the 1st was deferred" needs two iterations
+        # (recovery loops, the runner polls, and the worker's poll whose consumer may abandon the generator)
+        eng.loop_k = 2
+        # ... except the worker's own outer loop: it repeats one poll-and-run cycle, a second unrolling of THAT loop
+        # multiplies the paths without adding effect pairs (stated bound); the polls it calls are unrolled twice
+        eng.loop_k_in = {f.qualname: 1} if label.startswith("worker") else {}
         w, x, n, left = analyse_entry(ctx, eng, label, f, pre, sm)
         total_paths += n
         all_left |= left
